@@ -13,7 +13,11 @@ RULE = ("(a) the C01 request-history state machine, with a blake2b digest of "
         "any request/helper so far (each leaf of lists/dicts/tuples and the "
         "base arrays of views), re-verified after every step, also for arrays "
         "since evicted from the cache; inputs are made read-only in half of "
-        "the histories (a write then raises inside aurel). Non-trivial "
+        "the histories (a write then raises inside aurel); the array "
+        "attributes of the grid object are digested too, the centre of the "
+        "extraction spheres, the constructor flags (vacuum / Lambda "
+        "independent of the data), an extra inconsistent 4-metric and "
+        "directly supplied Weyl scalars with exact zeros are drawn. Non-trivial "
         "history = at least one array handed out earlier was an operand of "
         "a later computation. (b) the C14 over_time generator and (c) the "
         "C13 save/read history generator, asserting only that the caller's "
